@@ -201,13 +201,22 @@ func Check(env *core.Env, rep *core.Report) *core.Result {
 		r := rand.New(rand.NewSource(selJobs[i]))
 		root := env.Sub("tree")
 		cfgd := env.Sub("wcfg")
-		paths := randTree(r, root)
-		var inc, exc []string
-		for k := 0; k < 1+r.Intn(2); k++ {
-			inc = append(inc, randPattern(r))
-		}
-		if r.Intn(2) == 0 {
-			exc = append(exc, randPattern(r))
+		var paths, inc, exc []string
+		if i == 0 {
+			// the fixed scenario of the recorded finding C20:select:consecutive-doublestar (see KNOWN_FINDINGS.json)
+			_ = os.MkdirAll(filepath.Join(root, "b"), 0o755)
+			_ = ioutil.WriteFile(filepath.Join(root, "a"), []byte("x"), 0o644)
+			_ = ioutil.WriteFile(filepath.Join(root, "b", "a"), []byte("x"), 0o644)
+			paths = []string{"a", "b", "b/a"}
+			inc = []string{"**/**/a"}
+		} else {
+			paths = randTree(r, root)
+			for k := 0; k < 1+r.Intn(2); k++ {
+				inc = append(inc, randPattern(r))
+			}
+			if r.Intn(2) == 0 {
+				exc = append(exc, randPattern(r))
+			}
 		}
 		var y strings.Builder
 		y.WriteString("tasks:\n  t:\n    command: [\"true\"]\nwatchers:\n  w:\n    task: t\n    watch:\n")
@@ -261,7 +270,7 @@ func Check(env *core.Env, rep *core.Report) *core.Result {
 		for _, q := range exc {
 			es = append(es, segs(q))
 		}
-		selOut[i].row = rowT{"kind": "select", "paths": ps, "inc": is, "exc": es, "observed": obs}
+		selOut[i].row = rowT{"kind": "select", "paths": ps, "inc": is, "exc": es, "observed": obs, "_inc": inc, "_exc": exc, "_paths": paths}
 		selOut[i].desc = fmt.Sprintf("select include=%v exclude=%v tree=%v observed=%v", inc, exc, paths, obs)
 	})
 	broken := 0
@@ -421,7 +430,13 @@ func Check(env *core.Env, rep *core.Report) *core.Result {
 	// judge every row with TLC
 	var buf bytes.Buffer
 	for _, r := range rows {
-		b, _ := json.Marshal(r)
+		c := rowT{}
+		for k, x := range r {
+			if !strings.HasPrefix(k, "_") {
+				c[k] = x
+			}
+		}
+		b, _ := json.Marshal(c)
 		buf.Write(b)
 		buf.WriteByte('\n')
 	}
@@ -441,7 +456,11 @@ func Check(env *core.Env, rep *core.Report) *core.Result {
 			// Glob.tla disagrees with the library: a specification error, not a verdict about taskctl
 			core.Broken("calibration: Glob.tla's PathMatch disagrees with doublestar on %s", meta[bi-1])
 		case "select":
-			add("select:observed-paths-differ-from-selected", "the watcher does not wait on exactly the paths matching an include and no exclude pattern: "+meta[bi-1], r)
+			if consecutiveDoublestarOnly(r) {
+				add("select:consecutive-doublestar", "an include pattern with two adjacent ** segments does not select paths that need the pair to match zero directories: "+meta[bi-1], r)
+			} else {
+				add("select:observed-paths-differ-from-selected", "the watcher does not wait on exactly the paths matching an include and no exclude pattern: "+meta[bi-1], r)
+			}
 		default:
 			add("events:runs-do-not-match-subscribed-events", "task runs do not correspond to the delivered, subscribed events (or an unselected file produced events, or a selected one none): "+meta[bi-1], r)
 		}
@@ -467,6 +486,11 @@ func Check(env *core.Env, rep *core.Report) *core.Result {
 				}
 			}
 			c["observed"] = rest
+			for k := range c {
+				if strings.HasPrefix(k, "_") {
+					delete(c, k)
+				}
+			}
 			b, _ := json.Marshal(c)
 			r2 := core.MustHold(env, core.TLCOpts{Module: "WatchTable", Config: "WatchTable.cfg", Workers: 1, Files: map[string][]byte{"rows.ndjson": append(b, '\n')}})
 			if p2 := r2.Tagged("BAD"); len(p2) == 0 || !strings.Contains(p2[0], `"bad":[1]`) {
@@ -490,6 +514,47 @@ func Check(env *core.Env, rep *core.Report) *core.Result {
 		"operations stay away from non-selected children of selected directories; a removed or renamed file is not touched again",
 		"the loop handles one event per second: scenarios wait (operations + 2) x 1.1 s and for a quiet log before judging",
 	}}
+}
+
+// consecutiveDoublestarOnly recognises the recorded finding: the watcher observes a subset of the
+// selected paths, and every missing path is matched only by include patterns that contain two
+// adjacent "**" segments (doublestar.Glob, unlike PathMatch, wants a directory for such a pair).
+func consecutiveDoublestarOnly(r rowT) bool {
+	inc, _ := r["_inc"].([]string)
+	exc, _ := r["_exc"].([]string)
+	paths, _ := r["_paths"].([]string)
+	obs := map[int]bool{}
+	for _, o := range r["observed"].([]int) {
+		obs[o] = true
+	}
+	adjacent := func(p string) bool { return strings.Contains("/"+p+"/", "/**/**/") }
+	missing := 0
+	for k, q := range paths {
+		sel, onlyAdj := false, true
+		for _, p := range inc {
+			if m, _ := doublestar.PathMatch(p, q); m {
+				sel = true
+				if !adjacent(p) {
+					onlyAdj = false
+				}
+			}
+		}
+		for _, p := range exc {
+			if m, _ := doublestar.PathMatch(p, q); m {
+				sel = false
+			}
+		}
+		if obs[k+1] && !sel {
+			return false // observes something that is not selected: a different violation
+		}
+		if sel && !obs[k+1] {
+			if !onlyAdj {
+				return false
+			}
+			missing++
+		}
+	}
+	return missing > 0
 }
 
 func keys(m map[string]bool) []string {
